@@ -1,16 +1,22 @@
-"""C07 -- see DESIGN.md section 5.  Deductive targets are added below the bounded import."""
+"""C07 -- option and argument flags are validated and normalised consistently."""
+from pyvc.contracts import REG as R
+from . import format_contracts as fc
+
 PROP = "C07"
 LEVEL = "other"
-EXPLANATION = "under construction: bounded run-time contract checks on the real code; deductive obligations are being added"
-UNDER_CONSTRUCTION = True
-NOT_APPLICABLE = "check under construction in this round (see DESIGN.md section 5 for the plan); not claimed yet"
-TARGETS = []
+EXPLANATION = "under construction"
+TARGETS = [
+    {"qual": fc.M_OPT + ":Option.__init__", "split": True},
+    {"qual": fc.M_ARG + ":Argument.__init__", "split": True},
+    {"qual": fc.M_STR + ":parse_string"},
+    {"qual": fc.M_STR + ":parse_boolean"},
+    {"qual": fc.M_STR + ":parse_int"},
+    {"qual": fc.M_STR + ":parse_float"},
+    {"qual": fc.M_OPT + ":Option.parse"},
+    {"qual": fc.M_ARG + ":Argument.parse"},
+]
 LEMMAS = []
 try:
-    from .C07_bounded import bounded, BOUNDED_RULE  # noqa: F401
-    try:
-        from .C07_bounded import replay_bounded  # noqa: F401
-    except ImportError:
-        pass
+    from .C07_bounded import bounded, BOUNDED_RULE  # noqa
 except ImportError:
     pass
